@@ -169,7 +169,9 @@ def _worker(task):
             try:
                 if sc.setup is not None:
                     sc.setup()
-                if sc.enumerate is not None:
+                if getattr(sc, "custom", None) is not None:
+                    stats, failures, harness = sc.custom(sc, n, seed, tier)
+                elif sc.enumerate is not None:
                     stats, failures, harness = _run_enumeration(sc, tier, seed, shard, nshards, matchers)
                 else:
                     stats, failures, harness = _run_hypothesis(sc, n, seed, matchers)
